@@ -359,11 +359,20 @@ func TestVerif_C07(t *testing.T) {
 			after := make([][]string, workers)
 			afterSet := map[string]bool{}
 			var sentStill []E1Buffered
+			var recorded []map[string]any
+			recordedKept := 0
 			e.Inspect(func(v *E1View) {
 				for _, b := range v.Buffered() {
 					if !b.Sent {
 						after[b.Worker] = append(after[b.Worker], b.Trace)
 						afterSet[b.Trace] = true
+						// a lookup of an id the cache does not know changes nothing in it
+						if dec := v.CheckTrace(b.Trace); dec.Found {
+							recorded = append(recorded, map[string]any{"trace": b.Trace, "worker": b.Worker, "record": dec})
+							if dec.Kept {
+								recordedKept++
+							}
+						}
 					} else {
 						sentStill = append(sentStill, b)
 					}
@@ -372,6 +381,20 @@ func TestVerif_C07(t *testing.T) {
 			o.After = after
 			wit := func(extra any) map[string]any {
 				return map[string]any{"config": cfg.describe(), "ejection": o, "detail": extra, "ops": e.Ops()}
+			}
+			// decided ⇔ ejected: no decision may be recorded for a trace that stays buffered and undecided. Decisions
+			// made (makeDecision: has_root + no_root) and applied (send: kept + dropped) must move together, and the
+			// decision cache must not know a buffered trace. A "dropped" answer alone can be a cuckoo false positive,
+			// so it counts only together with the counter imbalance; a kept record is exact.
+			phantom := (e.Counter("trace_send_has_root") + e.Counter("trace_send_no_root") - ctr0["trace_send_has_root"] - ctr0["trace_send_no_root"]) -
+				(e.Counter("trace_send_kept") + e.Counter("trace_send_dropped") - ctr0["trace_send_kept"] - ctr0["trace_send_dropped"])
+			switch {
+			case phantom != 0 || recordedKept > 0:
+				run.Violation("C07/ejection/"+o.Kind+"/decision-recorded-for-trace-left-in-buffer",
+					fmt.Sprintf("the ejection step made %d more sampling decisions than it applied; %d trace(s) still buffered and not sent are known to the decision cache (%d as kept)", phantom, len(recorded), recordedKept),
+					wit(map[string]any{"decisions_made_minus_applied": phantom, "buffered_traces_with_a_record": recorded}))
+			case len(recorded) > 0:
+				run.Count("buffered_traces_answered_dropped_by_filter_without_decision", int64(len(recorded)))
 			}
 			if len(sentStill) > 0 {
 				run.Violation("C07/ejected-trace/"+o.Kind+"/decided-but-still-in-buffer", fmt.Sprintf("%d trace(s) were decided and sent by the ejection but are still held in the worker's trace buffer", len(sentStill)), wit(sentStill[:min(3, len(sentStill))]))
@@ -518,7 +541,7 @@ func TestVerif_C07(t *testing.T) {
 		}
 		counters := func() map[string]int64 {
 			m := map[string]int64{}
-			for _, n := range []string{"trace_send_kept", "trace_send_dropped", TraceSendEjectedMemsize, TraceSendGotRoot, TraceSendExpired, TraceSendSpanLimit, TraceSendEjectedFull} {
+			for _, n := range []string{"trace_send_has_root", "trace_send_no_root", "trace_send_kept", "trace_send_dropped", TraceSendEjectedMemsize, TraceSendGotRoot, TraceSendExpired, TraceSendSpanLimit, TraceSendEjectedFull} {
 				m[n] = e.Counter(n)
 			}
 			return m
@@ -852,7 +875,7 @@ func TestVerif_C07(t *testing.T) {
 						}
 						continue
 					}
-					if obs.Final.Kept != keep && !(obs.Final.Found && !obs.Final.Kept && f.DropFilterExcess() > 0) {
+					if obs.Final.Kept != keep && !(obs.Final.Found && !obs.Final.Kept && f.DropFilterExcess() > 0 && f.PhantomDecisions() == 0) {
 						run.Violation("C07/ejected-trace/recorded-decision-differs-from-sampler", fmt.Sprintf("trace %s ejected at step %d: sampler keeps=%v, decision cache says kept=%v", s.Trace, o.Step, keep, obs.Final.Kept),
 							map[string]any{"config": cfg.describe(), "ejection": o, "trace": s, "ops": e.Ops()})
 					}
